@@ -146,7 +146,7 @@ one(int mi, int di, int ki)
 	ex_outcome(ex_hash_mix(ex_hash(r.out, r.outlen), (uint64_t)(r.exited ? r.status : 1000 + r.sig)));
 	if (r.signaled) {
 		snprintf(key, sizeof(key), "iozone %s map=%s dir=%s", r.timed_out ? "does-not-terminate" : "fatal-signal", mclass, dclass);
-		ex_viol(key, dl ? dl : (int)strlen(name), cas, NULL, "dconv --zone <%zu-byte map name>:%s with TZMAP_DIR of %d bytes: %s",
+		ex_viol(key, di >= 2 ? dl : (int)strlen(name), cas, NULL, "dconv --zone <%zu-byte map name>:%s with TZMAP_DIR of %d bytes: %s",
 			strlen(name), ki ? "ZZZ" : "FRA", dl, fs_ending(&r));
 		bad = 1;
 	} else if (r.err && strstr(r.err, "AddressSanitizer")) {
@@ -159,7 +159,7 @@ one(int mi, int di, int ki)
 		}
 		snprintf(key, sizeof(key), "iozone asan:%s%s map=%s dir=%s", sum, strstr(r.err, "WRITE of size") ? " WRITE" : strstr(r.err, "READ of size") ? " READ" : "",
 			 mclass, dclass);
-		ex_viol(key, dl ? dl : (int)strlen(name), cas, NULL, "dconv --zone <%zu-byte map name>:%s with TZMAP_DIR of %d bytes: AddressSanitizer reports %s (exit %d)",
+		ex_viol(key, di >= 2 ? dl : (int)strlen(name), cas, NULL, "dconv --zone <%zu-byte map name>:%s with TZMAP_DIR of %d bytes: AddressSanitizer reports %s (exit %d)",
 			strlen(name), ki ? "ZZZ" : "FRA", dl, sum, r.status);
 		bad = 1;
 	} else if (r.outlen) {
@@ -168,7 +168,7 @@ one(int mi, int di, int ki)
 			++*c_resolved;
 		} else {
 			snprintf(key, sizeof(key), "iozone wrong-output map=%s dir=%s key=%s", mclass, dclass, ki ? "absent" : "present");
-			ex_viol(key, dl ? dl : (int)strlen(name), cas, NULL, "dconv --zone <%zu-byte map name>:%s with TZMAP_DIR of %d bytes prints '%.40s'",
+			ex_viol(key, di >= 2 ? dl : (int)strlen(name), cas, NULL, "dconv --zone <%zu-byte map name>:%s with TZMAP_DIR of %d bytes prints '%.40s'",
 				strlen(name), ki ? "ZZZ" : "FRA", dl, r.out);
 			bad = 1;
 		}
@@ -197,7 +197,7 @@ main(int argc, char *argv[])
 		dir_lens[ndirlens++] = l;
 	}
 	/* the maps live in a directory of this process */
-	snprintf(rundir, sizeof(rundir), "%s/c19io.%d", rd ? rd : "/tmp", (int)getpid());
+	snprintf(rundir, sizeof(rundir), "%s/c19io.%07d", rd ? rd : "/tmp", (int)getpid() % 10000000);
 	rundir_len = strlen(rundir);
 	if (ex.tree == NULL) {
 		fprintf(stderr, "c19_iozone: no --tree\n");
